@@ -456,6 +456,9 @@ func runC04(c *Ctx) {
 	for i := 0; i < c.N/4000+2; i++ {
 		gcChurn(c, r, i)
 	}
+	for i := 0; i < c.N/100+5; i++ {
+		redisSchedRound(c, r, i)
+	}
 	for _, pre := range []string{"E", "-", "E,S,E"} {
 		udpOverlap(c, pre, 12)
 	}
@@ -625,4 +628,50 @@ func emitEcho(c *Ctx, uc udpCase, obs string) {
 	op := fmt.Sprintf("udp.echo pkt=%s src=%s now=%d skew=%d spoof=0 maxnw=%d defnw=%d maxscrape=%d tag=%s gtag=%s lowmap=%s",
 		hx(uc.pkt), hx(uc.src), uc.now, uc.skew, uc.maxnw, uc.defnw, uc.ms, hx(tag), hx(gtag), lowmapOf(urlDataOf(optArea)))
 	c.Emit(op, obs)
+}
+
+// redisSchedRound: 2-4 threads run 1-3 announce-path operations each on ONE swarm and the same 2-3 peers of the real
+// Redis store, under a scheduler that interleaves their round trips in a generated order (st.redis_sched). The model
+// (RedisConc.run) executes the same schedule; the server state in the middle of the schedule, the order and results
+// of the operations, the final state and the exported totals must all agree.
+func redisSchedRound(c *Ctx, r *Rng, round int) {
+	storeOp(c, "st.reset", map[string]string{"n": "1", "kind": "redis", "instances": "1"})
+	clock := int64(1700000000e9) + int64(round)*1e9
+	storeOp(c, "st.clock", map[string]string{"t": strconv.FormatInt(clock, 10)})
+	u := mkUniverse(r, 1, 3)
+	ih := hx(u.ihs[0])
+	fam4 := len(u.peers[0]) == 26
+	var peers []string
+	for _, p := range u.peers {
+		if (len(p) == 26) == fam4 {
+			peers = append(peers, hx(p))
+		}
+	}
+	for i := 0; i < r.Intn(4); i++ {
+		storeOp(c, []string{"st.put_seeder", "st.put_leecher"}[r.Intn(2)], map[string]string{"ih": ih, "pk": peers[r.Intn(len(peers))], "inst": "0"})
+	}
+	threads := 2 + r.Intn(3)
+	var progs []string
+	trips := 0
+	for t := 0; t < threads; t++ {
+		var pr []string
+		for k := 0; k < 1+r.Intn(3); k++ {
+			pr = append(pr, []string{"ps", "pl", "gr", "ds", "dl"}[r.Intn(5)]+":"+peers[r.Intn(len(peers))])
+			trips += 2
+		}
+		progs = append(progs, strings.Join(pr, ";"))
+	}
+	// a schedule that usually stops with operations in flight, sometimes runs past the end
+	var sched []string
+	for k := r.Intn(trips + 2); k > 0; k-- {
+		sched = append(sched, strconv.Itoa(r.Intn(threads)))
+	}
+	sa := "-"
+	if len(sched) > 0 {
+		sa = strings.Join(sched, ",")
+	}
+	storeOp(c, "st.redis_sched", map[string]string{"ih": ih, "progs": strings.Join(progs, "|"), "sched": sa})
+	c.Kind("redis-sched")
+	storeOp(c, "st.dump", map[string]string{})
+	storeOp(c, "st.totals", map[string]string{"inst": "0"})
 }
